@@ -14,12 +14,19 @@
 //!   `ExchangeStream::<WebSocketParser, _, _>::new(inner, transformer, processed)` over an in-memory
 //!   stream of real tungstenite `Message`s (`Text` / `Binary` carrying real JSON, `Ping`, `Pong`,
 //!   `Frame`, `Close`) and tungstenite errors, followed by `stream::pending()` unless the socket ended;
-//! * then exactly the chain of `init_market_stream` (consumer.rs) and
-//!   `init_multi_order_book_l2_manager` (manager.rs): `.with_reconnect_backoff(policy, key)
+//! * then the combinator chain of `init_market_stream` (consumer.rs) and the error handler + manager of
+//!   `init_multi_order_book_l2_manager` (manager.rs) — WITHOUT the `StreamBuilder::subscribe/init` stage that
+//!   sits between them in the real function (validate / sort / dedup of the subscriptions, a spawned
+//!   `forward_to` task into an unbounded mpsc, `select_all`; declared in props/C06E.py ASSUMPTIONS):
+//!   `.with_reconnect_backoff(policy, key)
 //!   .with_termination_on_error(|e| e.is_terminal(), key).with_reconnection_events(exchange)
 //!   .with_error_handler(..)` into the real `OrderBookL2Manager { stream, books }.run()` over an
 //!   `OrderBookMapMulti` of default books; an `inspect` between handler and manager records the events
 //!   the manager receives.
+//!
+//! `depth k n` declares that the REST snapshots of instrument `k` are cut to the best `n` levels per side (the code's
+//! fetchers request `limit=100`; the harness bypasses the HTTP fetch): from then on every observation also prints,
+//! after the `book` lines, `lv<k>:<b|a>:<price> <amount>` for every price of `venue k`.
 //!
 //! Everything runs on a current-thread runtime with a paused clock; a timeout far beyond every
 //! back-off sleep detects that the pipeline is pending for good, then the shared books are read.
@@ -122,6 +129,47 @@ fn json_levels(ls: &[(String, String)]) -> String {
         .collect::<Vec<_>>()
         .join(",");
     format!("[{inner}]")
+}
+
+/// the prices of `venue k` per side (bids, asks), ascending, each once
+type Universe = (std::collections::BTreeSet<Decimal>, std::collections::BTreeSet<Decimal>);
+
+/// `venue k id:b|a:price:amount …` → the price universe of instrument `k`
+fn parse_universe(toks: &[String]) -> Option<(usize, Universe)> {
+    let k: usize = toks.first()?.parse().ok()?;
+    let mut u: Universe = Default::default();
+    for c in &toks[1..] {
+        let f: Vec<&str> = c.split(':').collect();
+        if f.len() != 4 {
+            return None;
+        }
+        f[0].parse::<u64>().ok()?;
+        let p: Decimal = f[2].parse().ok()?;
+        f[3].parse::<Decimal>().ok()?;
+        match f[1] {
+            "b" => u.0.insert(p),
+            "a" => u.1.insert(p),
+            _ => return None,
+        };
+    }
+    Some((k, u))
+}
+
+/// per-level observation: the managed book's amount at every price of the venue's universe (0 = no level)
+fn lv_lines(lines: &mut Vec<String>, depths: &[usize], uni: &BTreeMap<usize, Universe>, books: &[OrderBook]) {
+    for (k, b) in books.iter().enumerate() {
+        if !depths.contains(&k) {
+            continue;
+        }
+        let empty = Universe::default();
+        let (ub, ua) = uni.get(&k).unwrap_or(&empty);
+        for (tag, prices, levels) in [("b", ub, b.bids().levels()), ("a", ua, b.asks().levels())] {
+            for p in prices {
+                let amount = levels.iter().find(|l| l.price == *p).map(|l| l.amount).unwrap_or(Decimal::ZERO);
+                lines.push(format!("lv{k}:{tag}:{} {}", fmt_dec(*p), fmt_dec(amount)));
+            }
+        }
+    }
 }
 
 // ------------------------------------------------------------------------------------ input
@@ -413,6 +461,8 @@ fn run() {
         let mut draft = ConnSpec::default();
         let mut seen_events: Vec<String> = vec![];
         let mut seen_handled: Vec<String> = vec![];
+        let mut uni: BTreeMap<usize, Universe> = BTreeMap::new();
+        let mut depths: Vec<usize> = vec![];
         for op in case.ops.iter() {
             lines.push("@".into());
             let mut observe = false;
@@ -433,11 +483,22 @@ fn run() {
                             draft = ConnSpec::default();
                             seen_events.clear();
                             seen_handled.clear();
+                            uni.clear();
+                            depths.clear();
                         }
                         _ => lines.push("bad-op".into()),
                     }
                 }
-                "venue" => {}
+                "venue" => match parse_universe(&op[1..]) {
+                    Some((k, u)) => {
+                        uni.insert(k, u);
+                    }
+                    None => lines.push("bad-op".into()),
+                },
+                "depth" if op.len() == 3 => match (op[1].parse::<usize>(), op[2].parse::<u64>()) {
+                    (Ok(k), Ok(_)) => depths.push(k),
+                    _ => lines.push("bad-op".into()),
+                },
                 "snap" | "snapu" => match parse_snapshot(spot, op[0] == "snapu", &op[1..]) {
                     Some(ev) => draft.snapshots.push(ev),
                     None => lines.push("bad-op".into()),
@@ -489,6 +550,7 @@ fn run() {
                 for (k, b) in o.books.iter().enumerate() {
                     lines.push(format!("book{k} {}", fmt_book(b)));
                 }
+                lv_lines(lines, &depths, &uni, &o.books);
                 seen_events = o.events;
                 seen_handled = o.handled;
             }
@@ -631,9 +693,13 @@ fn venue_line(k: usize, v: &[Chg]) -> String {
     format!("venue {k} {body}")
 }
 
-fn snap_line(op: &str, k: usize, v: &[Chg], s: u64, rng: &mut Rng) -> String {
+/// the REST snapshot at `s`; `depth = Some(d)`: cut to the best `d` levels per side (highest bids, lowest asks),
+/// what the venue answers to `…&limit=d`
+fn snap_line(op: &str, k: usize, v: &[Chg], s: u64, rng: &mut Rng, depth: Option<usize>) -> String {
+    let d = depth.unwrap_or(usize::MAX);
     let mut b: Vec<String> = side_at(v, s, true).values().map(|(p, a)| format!("{p}:{a}")).collect();
-    let mut a: Vec<String> = side_at(v, s, false).values().map(|(p, a)| format!("{p}:{a}")).collect();
+    b.drain(..b.len().saturating_sub(d));
+    let mut a: Vec<String> = side_at(v, s, false).values().take(d).map(|(p, a)| format!("{p}:{a}")).collect();
     shuffle(rng, &mut b);
     shuffle(rng, &mut a);
     format!("{op} {k} {s} | {} | {}", b.join(" "), a.join(" "))
@@ -708,6 +774,8 @@ struct Knobs {
     noise_pct: u64,
     clean_pct: u64,
     max_msgs: usize,
+    /// per instrument the declared REST depth (depth-limited snapshots), `None` = full depth
+    depths: Vec<Option<usize>>,
 }
 
 /// a frame that is not a depth update of a subscribed symbol
@@ -773,14 +841,14 @@ fn gen_connection(out: &mut Out, rng: &mut Rng, k: &Knobs, venues: &[(Vec<Chg>, 
             .unwrap_or(base.len());
         if fail_init && i == fail_k {
             if rng.chance(50) {
-                snaps.push(snap_line("snapu", i, &v, s, rng));
+                snaps.push(snap_line("snapu", i, &v, s, rng, k.depths[i]));
             }
         } else {
-            snaps.push(snap_line("snap", i, &v, s, rng));
+            snaps.push(snap_line("snap", i, &v, s, rng, k.depths[i]));
             if rng.chance(2) {
                 // a second REST snapshot for the same instrument (duplicated subscription)
                 let s2 = rng.pick(&v).id;
-                snaps.push(snap_line("snap", i, &v, s2, rng));
+                snaps.push(snap_line("snap", i, &v, s2, rng, k.depths[i]));
             }
         }
         if let Some(mc) = base.get(cover) {
@@ -849,7 +917,7 @@ fn gen_connection(out: &mut Out, rng: &mut Rng, k: &Knobs, venues: &[(Vec<Chg>, 
     }
 }
 
-fn gen_random_case(out: &mut Out, rng: &mut Rng, thorough: bool) {
+fn gen_random_case(out: &mut Out, rng: &mut Rng, thorough: bool, partial: bool) {
     let spot = rng.chance(50);
     let n = *rng.pick(&[1usize, 1, 2, 3]);
     let m = match rng.below(10) {
@@ -858,7 +926,7 @@ fn gen_random_case(out: &mut Out, rng: &mut Rng, thorough: bool) {
         _ => n,
     };
     out.line(format!("init {} {n} {m}", if spot { "spot" } else { "fut" }));
-    let k = Knobs {
+    let mut k = Knobs {
         spot,
         n,
         non_genuine: rng.chance(10),
@@ -866,10 +934,22 @@ fn gen_random_case(out: &mut Out, rng: &mut Rng, thorough: bool) {
         noise_pct: *rng.pick(&[0u64, 10, 25]),
         clean_pct: *rng.pick(&[30u64, 60, 90]),
         max_msgs: if thorough { 14 } else { 9 },
+        depths: vec![None; n],
     };
     let venues: Vec<(Vec<Chg>, Vec<String>)> = (0..n).map(|_| gen_venue(rng, if thorough { 40 } else { 24 })).collect();
     for (i, (v, _)) in venues.iter().enumerate() {
         out.line(venue_line(i, v));
+    }
+    if partial {
+        // depth-limited REST snapshots: per instrument the best 1-4 levels per side (at most 6 prices per side);
+        // 15 % of the instruments of such a case keep the full depth
+        for i in 0..n {
+            if !rng.chance(15) {
+                let d = rng.range(1, 4) as usize;
+                k.depths[i] = Some(d);
+                out.line(format!("depth {i} {d}"));
+            }
+        }
     }
     let connections = *rng.pick(&[1usize, 2, 2, 3]);
     for c in 0..connections {
@@ -973,7 +1053,14 @@ fn generate(seed: u64, n_cases: usize, tier: &str) {
     for _ in 0..n_cases {
         id += 1;
         out.case(format!("r{id}"));
-        gen_random_case(&mut out, &mut rng, thorough);
+        gen_random_case(&mut out, &mut rng, thorough, false);
+    }
+    // depth-limited snapshots: extra cases from an independent stream (the cases above are unchanged)
+    let mut prng = Rng::new(seed ^ 0x9e37_79b9_7f4a_7c15);
+    for _ in 0..(n_cases / 4).max(if n_cases > 0 { 10 } else { 0 }) {
+        id += 1;
+        out.case(format!("p{id}"));
+        gen_random_case(&mut out, &mut prng, thorough, true);
     }
     out.flush();
 }
